@@ -62,6 +62,10 @@ func vGenBitmap(p string) (*Bitmap, *vBDesc) {
 			key = uint16(i + 1)
 		case pat == 6:
 			key = uint16(2 * i)
+		case pat == 13:
+			key = uint16(4 + 16*i)
+		case pat == 14:
+			key = uint16(2 + 3*i)
 		case pat == 7:
 			key = uint16(65531 + 2*i)
 		case pat == 8:
